@@ -136,7 +136,8 @@ func init() {
 				Dels: []int{0, 1}, Vals: []int{0, 1}, Denoms: []string{"aaa"},
 				DelAmts: []string{"1", "3", "1000"}, UndAmts: []string{"1", "2", "7"}, UndAll: true,
 				RedAmts: []string{"1", "2"}, RedAll: true,
-				SlashVals: []int{0, 1}, SlashF: []string{"0.333333333333333333", "0.99"},
+				// 0.5 matters: x*0.5 lands exactly on half a unit of the 18th digit for odd x (round-half-even paths)
+				SlashVals: []int{0, 1}, SlashF: []string{"0.333333333333333333", "0.5", "0.99"},
 				BlockDts: dts(1, 3, 7),
 			}
 			mag := Alpha{
@@ -164,7 +165,7 @@ func init() {
 			return []*engine.Scenario{
 				req(mk("c03-small", small, [][]world.Op{nil}, []int{3, 1, 0, 2, 0}, 5)),
 				mk("c03-cycled", small, [][]world.Op{cycled}, []int{3, 1, 0, 2, 0}, 3),
-				mk("c03-magnitude", mag, [][]world.Op{nil}, []int{4, 1, 0, 1, 0}, 5),
+				mk("c03-magnitude", mag, [][]world.Op{nil}, []int{4, 1, 0, 2, 0}, 5),
 				unionScenario("C03", "c03-union", tier, c03Step, nil),
 			}
 		},
